@@ -56,11 +56,29 @@ def column_part(chk, quick, rnd):
         if k not in seen:
             seen.add(k)
             cases.append(c)
-    jobs = [{"prog": c["prog"], "flow": c["flow"], "metadata": False, "opts": {"as_kw": rnd.random() < 0.5}} for c in cases]
+    jobs = []
+    QUOTED = {"x": '"Xa"', "y": '"Select"', "a": '"A b"', "b": '"Bb"'}
+    for c in cases:
+        p = c["prog"]
+        base = {"as_kw": rnd.random() < 0.5}
+        variants = [base]
+        # the same program under other spellings of its statement-local names: quoted mixed-case aliases; derived tables written
+        # as CTEs read without an alias; one more table joined inside each derived table under a name the outer scope uses
+        variants.append(dict(base, spell=QUOTED, cte=rnd.random() < 0.5))
+        if any(r["k"] == "sub" for r in p["rels"]) or (p["branch2"] and p["branch2"][0]["al"] != "none"):
+            variants.append(dict(base, cte=True, spell=rnd.choice([None, QUOTED])))
+            outer = [r["al"] for r in p["rels"] if r["al"] != "none"] + [r["n"] for r in p["rels"] if r["k"] == "tbl" and r["al"] == "none"]
+            variants.append(dict(base, inner_join=rnd.choice(["", "as "]) + rnd.choice(outer)))
+        if p["kind"] == "update":
+            outer = [r["al"] for r in p["rels"] if r["al"] != "none"] + [r["n"] for r in p["rels"] if r["k"] == "tbl" and r["al"] == "none"]
+            variants.append(dict(base, where_sub=rnd.choice(["", "as "]) + rnd.choice(outer)))
+            variants.append(dict(base, where_sub="zq"))
+        for v in (variants if not quick else [variants[0]] + ([rnd.choice(variants[1:])] if len(variants) > 1 else [])):
+            jobs.append({"prog": p, "flow": c["flow"], "metadata": False, "opts": v})
     obs = c02.run_jobs(jobs)
     verdicts, keep = c02.decide(chk, jobs, obs, "colnaming")
     for (j, o), v in zip(keep, verdicts):
-        chk.count(["col", j["prog"]], nontrivial=any(r["al"] in ("a", "b") for r in j["prog"]["rels"]))
+        chk.count(["col", j["prog"], j["opts"]], nontrivial=any(r["al"] in ("a", "b") for r in j["prog"]["rels"]) or len(j["opts"]) > 1)
     chk.cov["column_level_verdicts"] = {k: verdicts.count(k) for k in sorted(set(verdicts))}
 
 
